@@ -363,9 +363,13 @@ def run(F, R, tier):
     for fn, what in (("builtins::functions::builtin_pcap_write", "builtins::pcap::Pcap::write_all"), ("run_filters", "builtins::pcap::Pcap::write_all")):
         g = F.fn(fn)
         if R.anchor(fn, g):
-            B = M.Body(g)
-            calls = [b["term"].get("callee") for b in B.blocks if b["term"]["k"] == "call" and not b.get("cleanup")]
-            R.ob("output-routing", "%s writes packets through Pcap::write_all" % H.last(fn), what in calls, "", F.loc(g))
+            # directly or through private helpers of the same file
+            cg = M.CallGraph(F)
+            reach = {q for q in cg.reachable_from([fn]) if q == what or (q in F.fns and F.fns[q]["file"] == g["file"])}
+            direct = set()
+            for q in reach:
+                direct |= set(cg.edges.get(q, ()))
+            R.ob("output-routing", "%s writes packets through Pcap::write_all" % H.last(fn), what in direct or what in reach, "", F.loc(g))
     bw = F.fn("builtins::functions::builtin_write")
     if R.anchor("builtin_write", bw):
         B = M.Body(bw)
